@@ -1,6 +1,7 @@
 /-
 C20 — Built-in agents emit well-formed orders that follow their documented strategy.
 -/
+import PamsLemmas.SourceTie
 import PamsModel.Agents
 import Mathlib.Analysis.SpecialFunctions.Exp
 import Mathlib.Analysis.SpecialFunctions.Log.Basic
@@ -156,5 +157,12 @@ theorem arb_hedged (buyIndex : Bool) (im : Nat) (ip : ℝ) (comps : List (Nat ×
 
 theorem arb_idle (im : Nat) (ip : ℝ) (comps : List (Nat × ℝ)) (v ttl : Nat) :
     arbOrders none im ip comps v ttl = [] := rfl
+
+/-- (T) the strict threshold comparisons of `ArbitrageAgent._submit_orders` and the strict side tests
+of `FCNAgent.submit_orders_by_market` in the current sources -/
+theorem source_agent_tests :
+    Pams.Source.opsOf "ArbitrageAgent._submit_orders" = [">", "<", ">", ">", ">"] ∧
+    Pams.Source.opsOf "FCNAgent.submit_orders_by_market" =
+      [">=", ">=", ">=", ">=", "==", "<= <=", ">", "<", "==", ">=", ">=", ">", ">", "<"] := by decide
 
 end Pams.C20
